@@ -270,6 +270,13 @@ func (mi *MessageInfo) unmarshalPointerLazy(b []byte, p pointer, groupTag protow
 				case lazyFields == nil || lazyFields[f] == lazyValidateOnly:
 					// Attempt to validate this field and leave it for later lazy unmarshaling.
 					o, valid := mi.skipField(b, f, wtyp, opts)
+					if valid == ValidationValid && !o.initialized && opts.flags&piface.UnmarshalCheckRequired != 0 {
+						// The submessage is well-formed but lacks required fields, and
+						// the caller wants required fields checked. That check skips
+						// unexpanded lazy fields (see checkInitializedPointer), so it
+						// can only report this submessage if it is unmarshaled eagerly.
+						valid = ValidationUnknown
+					}
 					switch valid {
 					case ValidationValid:
 						// Skip over the valid field and continue.
